@@ -71,11 +71,11 @@ type Exec struct {
 	Bubble   string // recovered bubble panic text
 	// Abandoned: the bubble was left with blocked goroutines (hung or leaking execution)
 	Abandoned bool
-	W        *World
-	States   []uint64
-	ConfSig  uint64
-	Conflict bool
-	Ticks    int
+	W         *World
+	States    []uint64
+	ConfSig   uint64
+	Conflict  bool
+	Ticks     int
 }
 
 func (x *Exec) Choices() []int {
@@ -233,16 +233,25 @@ func RunOnce(t *testing.T, sc *Scenario, prefix []int, expect [][]string) (x *Ex
 			for _, th := range norm {
 				opts = append(opts, opt{th, th.Name})
 			}
+			// scripted peers (Low 1) rank after the system under test: by default a peer
+			// speaks only when the endpoint has nothing left to do
+			for _, th := range low {
+				if th.Low == 1 {
+					opts = append(opts, opt{th, th.Name})
+				}
+			}
 			clockAt := -1
 			// deviations may waste ticks before a timer is even armed, so the budget grows
 			// with the bound: every timer of the scenario still fires within the run
 			if o.Horizon > 0 && x.Ticks < o.Horizon+o.Bound+1 {
-				// the clock ranks between normal threads and fault threads
+				// the clock ranks after every thread that can run and before fault threads
 				clockAt = len(opts)
 				opts = append(opts, opt{nil, "clock"})
 			}
 			for _, th := range low {
-				opts = append(opts, opt{th, th.Name})
+				if th.Low != 1 {
+					opts = append(opts, opt{th, th.Name})
+				}
 			}
 			_ = clockAt
 			if len(opts) == 0 {
